@@ -20,7 +20,9 @@ type VarMock interface {
 type defaultVarMocker struct {
 	targetValue reflect.Value
 	mockValue   interface{}
-	originValue interface{}
+	// originValue 第一次 Set/Apply 之前变量的值(拷贝), 仅当 saved 为 true 时有效
+	originValue reflect.Value
+	saved       bool
 	canceled    bool // canceled 是否被取消
 }
 
@@ -48,6 +50,12 @@ func newVarMocker(targetValue reflect.Value) *defaultVarMocker {
 // Apply 变量取值回调函数, 只会执行一次
 // 注意: Apply 会覆盖之前设定 Set 的值
 func (m *defaultVarMocker) Apply(callback interface{}) {
+	m.doSet(callVarCallback(callback))
+	logger.Consolefc(logger.DebugLevel, "mocker [%s] apply.", logger.Caller(5), m.String())
+}
+
+// callVarCallback 执行变量取值回调函数并返回其结果
+func callVarCallback(callback interface{}) interface{} {
 	f := reflect.ValueOf(callback)
 	if f.Kind() != reflect.Func {
 		panic("VarMock Apply argument(callback) must be a func.")
@@ -56,14 +64,15 @@ func (m *defaultVarMocker) Apply(callback interface{}) {
 	if ret == nil || len(ret) != 1 {
 		panic("VarMock Apply callback's returns length must be 1.")
 	}
-
-	m.doSet(ret[0].Interface())
-	logger.Consolefc(logger.DebugLevel, "mocker [%s] apply.", logger.Caller(5), m.String())
+	return ret[0].Interface()
 }
 
-// Cancel 取消 mock
+// Cancel 取消 mock, 还原为第一次 Set/Apply 之前的值; 从未 Set/Apply 过则不修改变量
 func (m *defaultVarMocker) Cancel() {
-	m.targetValue.Elem().Set(reflect.ValueOf(m.originValue))
+	if m.saved {
+		m.targetValue.Elem().Set(m.originValue)
+		m.saved = false
+	}
 	m.canceled = true
 }
 
@@ -80,8 +89,15 @@ func (m *defaultVarMocker) Set(value interface{}) {
 }
 
 func (m *defaultVarMocker) doSet(value interface{}) {
-	m.originValue = m.targetValue.Elem().Interface()
+	target := m.targetValue.Elem()
+	if !m.saved {
+		// 只记录第一次 mock 之前的值; 用 reflect.Value 拷贝保存, 值为 nil 的 interface 变量也能还原
+		origin := reflect.New(target.Type()).Elem()
+		origin.Set(target)
+		m.originValue = origin
+		m.saved = true
+	}
 	d := reflect.ValueOf(value)
-	m.targetValue.Elem().Set(d)
+	target.Set(d)
 	m.mockValue = value
 }
